@@ -24,4 +24,4 @@ def run(chk):
         evaluations=lambda s: cu.total(s, "encodes") + cu.total(s, "decodes"),
         nontrivial=lambda s: cu.total(s, "encodes"),
         debug_scale=60,
-        extra=lambda c, by_prof: __import__("checks.codec_common", fromlist=["x"]).encoder_model_tie(chk, c.cases))
+        extra=lambda c, by_prof: (lambda cc: dict(cc.encoder_model_tie(chk, c.cases), **cc.composed_model_tie(chk, c.cases)))(__import__("checks.codec_common", fromlist=["x"])))
